@@ -379,4 +379,13 @@ def specSuffix (s : Str) : Bool :=
   | [a, b, c, d] => isU a && isI b && c == '6' && d == '4'
   | _ => false
 
+/-- the suffix table without the Microsoft extensions (`supportMicrosoftExtensions = false`): no `i64` / `ui64` -/
+def specSuffixStd (s : Str) : Bool :=
+  match s with
+  | '_' :: _ :: _ => true
+  | [a] => isU a || isL a || isZ a
+  | [a, b] => (isU a && (isL b || isZ b)) || (isL a && (isU b || isL b)) || (isZ a && isU b)
+  | [a, b, c] => (isU a && isL b && isL c) || (isL a && isL b && isU c)
+  | _ => false
+
 end Cppcheck.MathLit
